@@ -4,6 +4,8 @@
 namespace sim {
 static thread_local HookState tl_hooks;
 HookState& hooks() { return tl_hooks; }
+static void step_begin() { tl_hooks.new_step(); }
+static const bool g_installed = (g_step_begin = step_begin, true);
 void (*g_yield_fn)(int site) = nullptr;
 uint64_t (*g_spin_fn)(int site) = nullptr;
 }  // namespace sim
@@ -30,7 +32,14 @@ int ada_verif_buggify(int site) noexcept {
   if (!h.active) return 0;
   int bit = site - 100;
   if (bit < 0 || bit > 63 || !((h.mask >> bit) & 1)) return 0;
-  if (h.prob256 < 256 && h.rng.below(256) >= h.prob256) return 0;
+  if (site == sim::B_PATTERN_REGEXP) {
+    // the eight components of a pattern are compiled independently: per-call decisions give random subsets
+    if (h.prob256 < 256 && h.rng.below(256) >= h.prob256) return 0;
+    h.fired[site]++;
+    return 1;
+  }
+  if (h.decided[bit] < 0) h.decided[bit] = (h.prob256 >= 256 || h.rng.below(256) < h.prob256) ? 1 : 0;
+  if (!h.decided[bit]) return 0;
   h.fired[site]++;
   return 1;
 }
